@@ -39,7 +39,7 @@ from . import term as T
 from .explore import EngineGap, PathCtx
 from .symt import SymScalar
 
-W = 18  # bit width; products of operands < 2^8 and sums of operands of magnitude < 2^16 cannot overflow
+W = 16  # bit width; products of operands < 2^7 and sums of operands of magnitude < 2^14 cannot overflow
 MUL_LIM = 1 << ((W - 2) // 2)
 ADD_LIM = 1 << (W - 2)
 
